@@ -159,7 +159,7 @@ def console_family(work, name, insess, cmds, maxcalls, maxatt, kinds, auth=1, in
             "subst": subst}
 
 
-def handshake_family(work, name, family, tier, seed, opts=None, workers=16, metrics=False):
+def handshake_family(work, name, family, tier, seed, opts=None, workers=16, metrics=False, race=False):
     """GenHandshake scenarios -> replay -> TraceHandshake validation."""
     subst = dict(SEED=seed, FAMILY=family, TIER=tier)
     t0 = time.time()
@@ -180,7 +180,7 @@ def handshake_family(work, name, family, tier, seed, opts=None, workers=16, metr
     if metrics:
         traces, info = replay_sharded_procs(src, work, name)
     else:
-        traces, info = replay(src, work, name, workers=workers)
+        traces, info = replay(src, work, name, workers=workers, race=race)
     t2 = time.time()
     tracecfg = os.path.join(work, name + ".tracecfg.json")
     json.dump({"known": known_pairs()}, open(tracecfg, "w"))
@@ -188,12 +188,12 @@ def handshake_family(work, name, family, tier, seed, opts=None, workers=16, metr
     accepted, consumed, events, viols = summarise(res)
     t3 = time.time()
     return {"name": name, "scripts": n, "scripts_file": src, "gen_states": gst["distinct"], "events": events,
-            "consumed": consumed, "accepted": accepted, "viols": viols, "traces": traces,
+            "consumed": consumed, "accepted": accepted, "viols": viols, "traces": traces, "replay_info": info,
             "times": {"gen": round(t1 - t0, 1), "replay": round(t2 - t1, 1), "validate": round(t3 - t2, 1)},
             "subst": dict(subst, opts=opts)}
 
 
-def walk_family(work, name, module, cfg_tpl, family, tier, seed, workers=16, opts=None, extra_subst=None):
+def walk_family(work, name, module, cfg_tpl, family, tier, seed, workers=16, opts=None, extra_subst=None, race=False):
     """Scenarios whose expectation travels in `exp` (TraceWalk.tla)."""
     subst = dict(SEED=seed, FAMILY=family, TIER=tier)
     if extra_subst:
@@ -212,7 +212,7 @@ def walk_family(work, name, module, cfg_tpl, family, tier, seed, workers=16, opt
                 d = json.loads(line)
                 d["opts"] = dict(d.get("opts") or {}, **opts)
                 o.write(json.dumps(d) + "\n")
-    traces, info = replay(src, work, name, workers=workers)
+    traces, info = replay(src, work, name, workers=workers, race=race)
     t2 = time.time()
     tracecfg = os.path.join(work, name + ".tracecfg.json")
     json.dump({"known": known_pairs()}, open(tracecfg, "w"))
@@ -220,7 +220,7 @@ def walk_family(work, name, module, cfg_tpl, family, tier, seed, workers=16, opt
     accepted, consumed, events, viols = summarise(res)
     t3 = time.time()
     return {"name": name, "scripts": n, "scripts_file": src, "gen_states": gst["distinct"], "events": events,
-            "consumed": consumed, "accepted": accepted, "viols": viols, "traces": traces,
+            "consumed": consumed, "accepted": accepted, "viols": viols, "traces": traces, "replay_info": info,
             "times": {"gen": round(t1 - t0, 1), "replay": round(t2 - t1, 1), "validate": round(t3 - t2, 1)},
             "subst": dict(subst, opts=opts)}
 
@@ -297,3 +297,26 @@ def vector_family(work, name, module, cfg_tpl, family, tier, seed, extra_subst=N
             "consumed": consumed, "accepted": accepted, "viols": viols, "traces": files,
             "times": {"gen": round(t1 - t0, 1), "replay": round(t2 - t1, 1), "validate": round(t3 - t2, 1)},
             "subst": subst}
+
+
+DROP = {"raw", "plain", "n", "ms", "script", "iv", "errText"}
+
+
+def normalised(trace_files):
+    """script id -> list of events without the fields that legitimately differ between runs (random IVs and
+    console randoms, timings)."""
+    out = {}
+    for tf in trace_files:
+        with open(tf) as f:
+            for line in f:
+                e = json.loads(line)
+                sid = e.get("script")
+                if e.get("ev") == "reset":
+                    cur = out.setdefault((os.path.basename(tf).split(".trace")[0], e.get("id")), [])
+                    key = (os.path.basename(tf).split(".trace")[0], e.get("id"))
+                    cur.clear()
+                d = {k: v for k, v in e.items() if k not in DROP}
+                if isinstance(d.get("value"), dict):
+                    d["value"] = {k: v for k, v in d["value"].items() if k not in ("SIK", "K1", "K2", "LocalID")}
+                out[key].append(d)
+    return out
